@@ -1,7 +1,7 @@
-//! Calendar queue (C01, C03): script `n t op*` with
-//! op = 1 time pay (add) | 2 k (cancel k-th handle) | 3 (fetch) | 4 (len) | 5 (time).
+//! Calendar queue (C01, C03): script `n t ts op*` (ts = 0: `CQueue::new`, else `CQueue::new_at`) with
+//! op = 1 time pay (add) | 2 k (cancel k-th handle) | 3 (fetch) | 4 (len) | 5 (time) | 6 (peek_time).
 //! Output per op: add -> 1 | fetch -> 2 pay time | len -> 3 n | time -> 4 t |
-//! cancel -> 5 | panic -> 9 site (1 = add in the past, 2 = fetch on empty).
+//! cancel -> 5 | peek -> 6 0 / 6 1 t | panic -> 9 site (1 = add in the past, 2 = fetch on empty).
 use des_cqueue::{CQueue, EventHandle};
 use std::panic::{catch_unwind, AssertUnwindSafe};
 use std::time::Duration;
@@ -11,15 +11,19 @@ fn main() {
 }
 
 fn run_line(nums: &[u64]) -> Vec<u64> {
-    if nums.len() < 2 || nums[0] == 0 || nums[1] == 0 {
+    if nums.len() < 3 || nums[0] == 0 || nums[1] == 0 {
         return vec![7];
     }
     let n = nums[0] as usize;
     let t = Duration::from_nanos(nums[1]);
-    let mut q: CQueue<u64> = CQueue::new(n, t);
+    let mut q: CQueue<u64> = if nums[2] == 0 {
+        CQueue::new(n, t)
+    } else {
+        CQueue::new_at(n, t, Duration::from_nanos(nums[2]))
+    };
     let mut handles: Vec<EventHandle<u64>> = Vec::new();
     let mut out = Vec::new();
-    let mut i = 2;
+    let mut i = 3;
     while i < nums.len() {
         match nums[i] {
             1 if i + 2 < nums.len() => {
@@ -60,6 +64,13 @@ fn run_line(nums: &[u64]) -> Vec<u64> {
             5 => {
                 i += 1;
                 out.extend([4, q.time().as_nanos() as u64]);
+            }
+            6 => {
+                i += 1;
+                match q.peek_time() {
+                    Some(t) => out.extend([6, 1, t.as_nanos() as u64]),
+                    None => out.extend([6, 0]),
+                }
             }
             _ => break,
         }
